@@ -75,7 +75,7 @@ func (g *control) proc(depth int, inLoop bool) psref.Tok {
 
 func (g *control) stmt(depth int, inLoop, first, last bool) []psref.Tok {
 	g.budget--
-	k := g.draw(38, "stmt")
+	k := g.draw(39, "stmt")
 	switch {
 	case k < 5:
 		return []psref.Tok{g.tr()}
@@ -236,6 +236,39 @@ func (g *control) stmt(depth int, inLoop, first, last bool) []psref.Tok {
 		default:
 			return []psref.Tok{psref.TL(name), psref.TX("load"), psref.TX("exec")}
 		}
+	case k == 38:
+		// The same procedure object bound twice: first while one of its names
+		// is shadowed by a dictionary on the dictionary stack (the name stays),
+		// then again after that dictionary is gone (the name now resolves to
+		// the operator and is replaced).  Called under a new shadow, the
+		// procedure shows which of the two it holds.
+		if depth > 1 {
+			return []psref.Tok{g.tr()}
+		}
+		g.feat["bind"] = true
+		g.feat["bind-twice"] = true
+		g.feat["dictstack"] = true
+		g.feat["rebind-or-call"] = true
+		op := []string{"add", "pop", "dup", "exch", "count"}[g.draw(5, "bind2op")]
+		shadow := func() []psref.Tok {
+			if g.draw(2, "bind2val") == 0 {
+				return []psref.Tok{psref.TX("<<"), psref.TL(op), g.tr(), psref.TX(">>"), psref.TX("begin")}
+			}
+			return []psref.Tok{psref.TX("<<"), psref.TL(op), psref.TP(g.tr()), psref.TX(">>"), psref.TX("begin")}
+		}
+		name := []string{"b1", "b2"}[g.draw(2, "bind2name")]
+		body := psref.TP(g.tr(), g.tr(), psref.TX(op))
+		if g.draw(3, "bind2nested") == 0 {
+			body = psref.TP(g.tr(), psref.TP(g.tr(), psref.TX(op)), psref.TX("exec"))
+		}
+		toks := []psref.Tok{psref.TL(name), body, psref.TX("def")}
+		toks = append(toks, shadow()...)
+		toks = append(toks, psref.TL(name), psref.TX("load"), psref.TX("bind"), psref.TX("pop"), psref.TX("end"))
+		if g.draw(4, "bind2second") > 0 {
+			toks = append(toks, psref.TL(name), psref.TX("load"), psref.TX("bind"), psref.TX("pop"))
+		}
+		toks = append(toks, shadow()...)
+		return append(toks, psref.TX(name), psref.TX("end"), g.tr())
 	case k == 37:
 		// dictionary enumerations inside dictionary enumerations
 		if g.nested || depth > 1 {
